@@ -5,6 +5,8 @@ From TS Require Import Model.Str Model.Outcome Model.Unicode Model.Types Model.P
 From TS Require Import Model.Lang.Swift Model.Lang.Python.
 From TS Require Proofs.C09Common Proofs.C09Recon Proofs.C09Refs Proofs.C09_KotlinFile Proofs.C09Witness Proofs.C09Final.
 From TS Require Proofs.C09_TypeScript Proofs.C09_Scala Proofs.C09_Python Proofs.C09_Swift Proofs.C09_Go Proofs.GoAcronyms Proofs.C09_GoAcr.
+From TS Require Import Model.Lang.Common Model.Collect Model.MultiFile Spec.C09MultiSpec.
+From TS Require Spec.C14Spec Proofs.C14Main Proofs.C14Front Proofs.C14Witness Proofs.C09Multi Proofs.C09MultiWitness Proofs.C09MultiTS Proofs.C09MultiC14.
 Import ListNotations.
 
 (* the program the back ends receive in single-file mode is Proofs.C09Recon.c09_reconciled of the parsed one *)
@@ -449,3 +451,200 @@ Theorem C09_Go_nonvacuous :
 Proof. exact Proofs.C09Witness.C09_Go_nonvacuous_ex. Qed.
 Print Assumptions C09_Go_nonvacuous.
 
+
+(* ================================================================ FOLDER MODE (`--output-folder`, one file per crate) *)
+
+(* Vocabulary (Spec/C09MultiSpec.v; the specification never calls the model).
+   arrivals                   what the per-file front end sends to the collector: (crate, the file's annotated items and the
+                              import candidates that survive in it - (d, N): the file says `use d::..::N` or the path d::..::N
+                              and mentions N; (d, GLOB): a glob import `use d::..::GLOB`.  parse_workspace uc T ign ho_file ws = Ok arrivals for
+                              every workspace (Props/C07.C07_workspace_parse_total).
+   multi_crates ho arrivals   collector + reconcile_aliases, the per-crate import set iterated in the order ho (any order)
+   c9m_denotes ws b f n       the crate whose type a mention of the Rust name n in file f of crate b denotes: the crate f imports
+                              n from explicitly, else b itself if it has a type n, else the first crate f glob-imports that has one
+   c9m_emitted_name ws c n    the name crate c's generated file defines its type n under (after serde(rename), before the prefix)
+   c9m_spelling ws b f gs n   what the mention must be spelled with: n itself if it is one of the generic parameters gs of the
+                              owner, the emitted name of the denoted definition if n denotes a typeshared type, None otherwise
+   c9m_known ws b f gs n      the decidable class of the mention, None outside all of them: C09-multi-generic-shadow (a generic
+                              parameter named like a serde-renamed type of the workspace), C09-multi-split-scope (the files of
+                              crate b do not agree on an explicit import of n: the tool looks names up in the import set of the
+                              whole crate), C09-multi-import-over-own (n imported explicitly from a crate that leaves it alone
+                              while b serde-renames a type n of its own: the tool falls back to the own rename),
+                              C09-multi-glob-renamed (n reached only through `use d::*;` and d generates it under another name:
+                              a glob import is never a rename candidate), C09-multi-two-names (the denoted crate generates two
+                              types of the Rust name n under different names)
+   c9m_ids_wf                 an item that is not serde-renamed is generated under its Rust name (true of every parsed source) *)
+
+(* check_type (reconcile.rs:126) rewrites the ids a type mentions - Simple ids and the id of a Generic, at any nesting
+   depth - through resolve_renamed and changes nothing else: same mentions, same forms, same order *)
+Theorem C09_multi_reconciled_ids :
+  forall (cn : str) (rn : renames) (im : list imported) (t : rtype),
+    c09_type_ids (check_type cn rn im t) =
+    map (fun fi => (fst fi, match resolve_renamed cn rn im (snd fi) with Some r => r | None => snd fi end)) (c09_type_ids t).
+Proof. exact Proofs.C09Multi.c9m_check_type_ids. Qed.
+Print Assumptions C09_multi_reconciled_ids.
+
+(* reconcile_aliases in folder mode, all languages, every workspace, every iteration order of the per-crate import sets:
+   every name (form, i') mentioned by a type the back end receives for a type position tp' of crate b - field, variant
+   payload, struct-variant field, alias target, const type; Simple id or id of a Generic, at any nesting depth - stands
+   at a type position tp (same owner, generic parameters, position kind) of a source file of b, for a mention (form, i)
+   there; and for EVERY source file f of b that has this type position: if the mention is in no class (c9m_known) and
+   the specification has a spelling s for it (c9m_spelling: i is a generic parameter of the owner - then s = i - or
+   denotes a typeshared type of crate d = c9m_denotes .. - b itself or another crate - then s = c9m_emitted_name ws d i),
+   then i' = s.  Mentions denoting own types and imported ones alike. *)
+Theorem C09_multi_reconciled_mentions :
+  forall (ho : list imported -> list imported) (arrivals : list (str * parsed)),
+    Proofs.C14Front.oracle_ok ho -> c9m_ids_wf arrivals = true ->
+    forall (b : str) (pd' : parsed), In (b, pd') (multi_crates ho arrivals) ->
+    forall (tp' : c09_tpos) (form : c09_form) (i' : str),
+      In tp' (c09_tposs pd') -> In (form, i') (c09_type_ids (c9t_type tp')) ->
+      exists (tp : c09_tpos) (i : str),
+        c9t_owner tp' = c9t_owner tp /\ c9t_generics tp' = c9t_generics tp /\ c9t_pos tp' = c9t_pos tp /\
+        In (form, i) (c09_type_ids (c9t_type tp)) /\
+        (exists f, In (b, f) arrivals /\ In tp (c09_tposs f)) /\
+        (forall f, In (b, f) arrivals -> In tp (c09_tposs f) ->
+           c9m_known arrivals b f (c9t_generics tp) i = None ->
+           forall s, c9m_spelling arrivals b f (c9t_generics tp) i = Some s -> i' = s).
+Proof. exact Proofs.C09Multi.c9m_multi_reconciled_mentions. Qed.
+Print Assumptions C09_multi_reconciled_mentions.
+
+(* regression pin and non-vacuity (fix 23's former witness, by `use a::A2;` and by the path `a::A2`; A2 is
+   #[serde(rename = "A2Renamed")] in crate a): the workspace is well-formed and in no class (wm_dom = (c9m_ids_wf,
+   c9m_known_ws)), the mention of A2 in my_crate denotes crate a's type and must be spelled A2Renamed, and my_crate.ts says
+   exactly `import { A2Renamed } from "./a";` and `f: A2Renamed;` - reference AND import; a.ts defines A2Renamed *)
+Theorem C09_multi_renamed_import_pin :
+  Proofs.C09MultiWitness.wm_dom Proofs.C14Witness.ws_renamed = Some (true, None) /\
+  Proofs.C09MultiWitness.wm_dom Proofs.C14Witness.ws_renamed_path = Some (true, None) /\
+  Proofs.C09MultiWitness.wm_spec Proofs.C14Witness.ws_renamed Proofs.C14Witness.MY (lit "A2") = [(Some (lit "a"), Some (lit "A2Renamed"), None)] /\
+  Proofs.C09MultiWitness.wm_spec Proofs.C14Witness.ws_renamed_path Proofs.C14Witness.MY (lit "A2") = [(Some (lit "a"), Some (lit "A2Renamed"), None)] /\
+  Proofs.C09MultiWitness.wm_ts_text Proofs.C14Witness.ws_renamed Proofs.C14Witness.MY = Some Proofs.C09MultiWitness.MY_TS /\
+  Proofs.C09MultiWitness.wm_ts_text Proofs.C14Witness.ws_renamed_path Proofs.C14Witness.MY = Some Proofs.C09MultiWitness.MY_TS /\
+  match Proofs.C09MultiWitness.wm_ts_text Proofs.C14Witness.ws_renamed (lit "a") with
+  | Some t => contains_sub (lit "export interface A2Renamed {") t | None => false end = true.
+Proof. exact Proofs.C09MultiWitness.renamed_import_pin. Qed.
+Print Assumptions C09_multi_renamed_import_pin.
+
+(* the pinned text, spelled out *)
+Theorem C09_multi_renamed_import_text :
+  Proofs.C09MultiWitness.MY_TS =
+    (lit "import { A2Renamed } from ""./a"";" ++ [10%N; 10%N] ++
+     lit "export interface B1 {" ++ [10%N; 9%N] ++ lit "f: A2Renamed;" ++ [10%N] ++ lit "}" ++ [10%N; 10%N])%list.
+Proof. reflexivity. Qed.
+Print Assumptions C09_multi_renamed_import_text.
+
+(* regression pin, the workspace of seeded change C09_d (crate a: A2 renamed A2Renamed; crate b: `use a::*;`, its OWN
+   struct A2, struct B1 { f: A2 }): in no class; the mention denotes b's own type (a local definition shadows a glob
+   import) and must be spelled A2; the exact text of b.ts - `f: A2;` under `export interface A2` *)
+Theorem C09_multi_local_shadows_glob_pin :
+  Proofs.C09MultiWitness.wm_dom Proofs.C09MultiWitness.ws_c09d = Some (true, None) /\
+  Proofs.C09MultiWitness.wm_spec Proofs.C09MultiWitness.ws_c09d (lit "b") (lit "A2") = [(Some (lit "b"), Some (lit "A2"), None)] /\
+  Proofs.C09MultiWitness.wm_ts_text Proofs.C09MultiWitness.ws_c09d (lit "b") =
+    Some (lit "import { A1, A2Renamed, A3 } from ""./a"";" ++ [10%N; 10%N] ++
+          lit "export interface A2 {" ++ [10%N; 9%N] ++ lit "z: number;" ++ [10%N] ++ lit "}" ++ [10%N; 10%N] ++
+          lit "export interface B1 {" ++ [10%N; 9%N] ++ lit "f: A2;" ++ [10%N] ++ lit "}" ++ [10%N; 10%N])%list.
+Proof. exact Proofs.C09MultiWitness.c09d_pin. Qed.
+Print Assumptions C09_multi_local_shadows_glob_pin.
+
+(* the class C09-multi-glob-renamed is needed (and is a defect of the unchanged tree): `use a::*;` and a reference to a's
+   renamed A2, no A2 in the crate itself - the mention denotes a's type, defined (and imported) as A2Renamed; the model,
+   like the tool, writes `f: A2;` *)
+Theorem C09_multi_glob_renamed_refuted :
+  Proofs.C09MultiWitness.wm_dom Proofs.C14Witness.ws_glob_renamed = Some (true, Some "C09-multi-glob-renamed"%string) /\
+  Proofs.C09MultiWitness.wm_spec Proofs.C14Witness.ws_glob_renamed Proofs.C14Witness.MY (lit "A2") =
+    [(Some (lit "a"), Some (lit "A2Renamed"), Some "C09-multi-glob-renamed"%string)] /\
+  Proofs.C09MultiWitness.wm_ts_text Proofs.C14Witness.ws_glob_renamed Proofs.C14Witness.MY =
+    Some (lit "import { A1, A2Renamed, A3 } from ""./a"";" ++ [10%N; 10%N] ++
+          lit "export interface B1 {" ++ [10%N; 9%N] ++ lit "f: A2;" ++ [10%N] ++ lit "}" ++ [10%N; 10%N])%list.
+Proof. exact Proofs.C09MultiWitness.glob_renamed_refuted. Qed.
+Print Assumptions C09_multi_glob_renamed_refuted.
+
+(* Kotlin on fix 23's former witness: without a prefix reference, import and definition agree (exact text); under the
+   prefix KP the reference is KPA2Renamed - what a.kt declares - while the import line names the unprefixed A2Renamed
+   (kotlin.rs:301 write_imports) *)
+Theorem C09_multi_renamed_import_kotlin_pin :
+  Proofs.C09MultiWitness.wm_kt_text [] Proofs.C14Witness.ws_renamed Proofs.C14Witness.MY =
+    Some (lit "package p.my_crate" ++ [10%N; 10%N] ++ lit "import kotlinx.serialization.Serializable" ++ [10%N] ++
+          lit "import kotlinx.serialization.SerialName" ++ [10%N; 10%N] ++ lit "import p.a.A2Renamed" ++ [10%N; 10%N] ++
+          lit "@Serializable" ++ [10%N] ++ lit "data class B1 (" ++ [10%N; 9%N] ++ lit "val f: A2Renamed" ++ [10%N] ++ lit ")" ++ [10%N; 10%N])%list /\
+  match Proofs.C09MultiWitness.wm_kt_text (lit "KP") Proofs.C14Witness.ws_renamed Proofs.C14Witness.MY with
+  | Some t => contains_sub (lit "val f: KPA2Renamed") t && contains_sub (lit "import p.a.A2Renamed") t
+  | None => false
+  end = true /\
+  match Proofs.C09MultiWitness.wm_kt_text (lit "KP") Proofs.C14Witness.ws_renamed (lit "a") with
+  | Some t => contains_sub (lit "data class KPA2Renamed (") t | None => false end = true.
+Proof. exact Proofs.C09MultiWitness.renamed_import_kotlin_pin. Qed.
+Print Assumptions C09_multi_renamed_import_kotlin_pin.
+
+(* TypeScript in folder mode (no prefix), every workspace, every iteration order, every type-mapping configuration, EVERY
+   state the TypeScript value is in when crate b is reached (it only collects the types that need a reviver): the file
+   of crate b is header, import lines, one rendered declaration per item of the reconciled crate, trailer; every
+   struct / enum / alias among them is declared under the emitted name of a type of b (c9m_def_ok), and every name spelled
+   in a type position - member types (those of inlined struct variants included), variant payloads, alias targets, const
+   types, generic ids and arguments - stands for a mention in a source file of b and, outside the classes of c9m_known, is
+   spelled as the specification says (c9m_ref_ok with the empty prefix): a generic parameter of the owner verbatim, a
+   typeshared type - of b or of another crate - under the name the file of the crate it denotes defines it under.
+   (Names the type mappings replace are not names of the file: they are printed as raw text.) *)
+Theorem C09_multi_TypeScript :
+  forall (uc : unicode) (cfg : ts_config) (ho : list imported -> list imported) (arrivals : list (str * parsed)),
+    Proofs.C14Front.oracle_ok ho -> c9m_ids_wf arrivals = true ->
+    forall (b : str) (pd' : parsed), In (b, pd') (multi_crates ho arrivals) ->
+    forall (st : ts_state) (im : scoped) (text : str) (st' : ts_state),
+      ts_generate_multi uc cfg st im pd' = Ok (text, st') ->
+      exists ds : list ts_decl,
+        text = (ts_begin_file cfg ++ ts_write_imports im ++ List.concat (map ts_render_decl ds) ++ ts_end_file st')%list /\
+        Forall (fun d => (c09_is_def (ts_obs d) = true -> c9m_def_ok arrivals b [] (d_name (ts_obs d))) /\
+                         (forall r, In r (c09_decl_refs TypeScript (ts_obs d)) -> c9m_ref_ok arrivals b [] r)) ds.
+Proof. exact Proofs.C09MultiTS.c9m_ts_file. Qed.
+Print Assumptions C09_multi_TypeScript.
+
+(* the decision layer alone: one item of the reconciled crate, any printer state *)
+Theorem C09_multi_TypeScript_item :
+  forall (uc : unicode) (cfg : ts_config) (ho : list imported -> list imported) (arrivals : list (str * parsed)),
+    Proofs.C14Front.oracle_ok ho -> c9m_ids_wf arrivals = true ->
+    forall (b : str) (pd' : parsed), In (b, pd') (multi_crates ho arrivals) ->
+    forall (it' : ritem) (d : ts_decl) (s1 s2 : ts_state),
+      In it' (items_of pd') -> ts_decl_of uc cfg it' s1 = Ok (d, s2) ->
+      (c09_is_def (ts_obs d) = true -> c9m_def_ok arrivals b [] (d_name (ts_obs d))) /\
+      (forall r, In r (c09_decl_refs TypeScript (ts_obs d)) -> c9m_ref_ok arrivals b [] r).
+Proof. exact Proofs.C09MultiTS.c9m_ts_item. Qed.
+Print Assumptions C09_multi_TypeScript_item.
+
+(* the name C14's specification expects a type N of crate d to be imported under (renamed_in, Spec/C14Spec.v, on the syntax-level
+   view of the workspace) is the name d's generated file defines it under (c9m_emitted_name, on the arrivals), whenever d
+   generates its types of the Rust name N under one name *)
+Theorem C09_multi_emitted_name_is_import_name :
+  forall (uc : unicode) (T ign : list str) (ho_file : list imported -> list imported) (ws : list ws_entry) (arrivals : list (str * parsed)),
+    parse_workspace uc T ign ho_file ws = Ok arrivals ->
+    forall d n, c9m_two_names arrivals d n = false ->
+      Spec.C14Spec.renamed_in (Proofs.C14Main.c14_infos uc T ws) d n = c9m_emitted_name arrivals d n.
+Proof. exact Proofs.C09MultiC14.c9m_renamed_in_emitted. Qed.
+Print Assumptions C09_multi_emitted_name_is_import_name.
+
+(* C09 composed with C14_imports_complete, TypeScript, the whole folder-mode pipeline (every workspace, --target-os list,
+   type-mapping configuration, all iteration orders of the three hash containers, every state of the TypeScript value):
+   the file generated for crate c (a) spells every reference as C09_multi_TypeScript says - own types and imported ones under
+   the name the defining file declares - and (b) for every cross-crate reference v that C14's specification finds in a source
+   file of c and that lies in dom_C14 (named by `use` / path, or covered by a glob), the import lines - which are part of
+   this very text - import it from its crate (rv_from v) under rv_generated_name v, and that name is c9m_emitted_name of the
+   target: spelled as in the defining file AND imported from it. *)
+Theorem C09_multi_TypeScript_spelled_and_imported :
+  forall (uc : unicode), unicode_ok uc ->
+  forall (cfg : ts_config) (T ign : list str) (ho_file ho_crate : list imported -> list imported) (hc : crate_types -> crate_types)
+         (ws : list ws_entry) (arrivals : list (str * parsed)),
+    parse_workspace uc T ign ho_file ws = Ok arrivals ->
+    Proofs.C14Front.oracle_ok ho_file -> Proofs.C14Front.oracle_ok ho_crate -> Proofs.C14Front.oracle_ok hc ->
+    c9m_ids_wf arrivals = true ->
+    forall c pd, In (c, pd) (multi_crates ho_crate arrivals) ->
+    let imports := crate_imports hc (multi_crates ho_crate arrivals) c pd in
+    forall st text st', ts_generate_multi uc cfg st imports pd = Ok (text, st') ->
+      (exists ds : list ts_decl,
+         text = (ts_begin_file cfg ++ ts_write_imports imports ++ List.concat (map ts_render_decl ds) ++ ts_end_file st')%list /\
+         Forall (fun d => (c09_is_def (ts_obs d) = true -> c9m_def_ok arrivals c [] (d_name (ts_obs d))) /\
+                          (forall r, In r (c09_decl_refs TypeScript (ts_obs d)) -> c9m_ref_ok arrivals c [] r)) ds) /\
+      (forall v, In v (Spec.C14Spec.judge_crate (Proofs.C14Main.c14_infos uc T ws) ign c (scoped_pairs imports)) ->
+         Spec.C14Spec.rv_dom v = true ->
+         Spec.C14Spec.rv_imported v = true /\
+         (c9m_two_names arrivals (Spec.C14Spec.rv_from v) (Spec.C14Spec.rv_name v) = false ->
+          Spec.C14Spec.rv_generated_name v = c9m_emitted_name arrivals (Spec.C14Spec.rv_from v) (Spec.C14Spec.rv_name v))).
+Proof. exact Proofs.C09MultiC14.c9m_ts_spelled_and_imported. Qed.
+Print Assumptions C09_multi_TypeScript_spelled_and_imported.
